@@ -595,9 +595,9 @@ func (e *env) doCancel(s Step, last *LastObs) {
 			a.StopBefore = stopBefore
 			for i, r := range w.st.Runs[s.J-1] {
 				allow := e.sc.Versions[w.jobs[s.J-1].ver-1].Tasks[i].Allow
-				a.OkAtAck[i] = r.Begun > 0 && !r.Open && (r.Outcome == "ok" || (r.Outcome == "fail" && allow))
+				a.OkAtAck[i] = r.Begun > 0 && !r.Open && (r.Outcome == "ok" || ((r.Outcome == "fail" || r.Outcome == "err") && allow))
 				a.OpenAtAck[i] = r.Open
-				if r.Outcome == "fail" && !allow {
+				if r.Outcome == "err" || (r.Outcome == "fail" && !allow) {
 					a.FailedAtAck = true
 				}
 			}
